@@ -7,8 +7,12 @@ package ipoe
 import (
 	"net"
 
+	"github.com/google/gopacket"
+	"github.com/google/gopacket/layers"
+
 	"github.com/veesix-networks/osvbng/pkg/allocator"
 	"github.com/veesix-networks/osvbng/pkg/config/ip"
+	"github.com/veesix-networks/osvbng/pkg/dataplane"
 	"github.com/veesix-networks/osvbng/pkg/dhcp"
 	"github.com/veesix-networks/osvbng/pkg/dhcp4"
 	"github.com/veesix-networks/osvbng/pkg/dhcp6"
@@ -81,7 +85,37 @@ func (c *Component) forwardPendingDHCPv4(sessID string, mac net.HardwareAddr, sv
 				c.logger.Error("Failed to send DHCP ACK", "session_id", sessID, "error", err)
 				return
 			}
+			if val, ok := c.sessionIndex.Load(sessID); ok {
+				c.recordAck(val.(*SessionState), response.Raw)
+			}
 		}
+	}
+}
+
+// recordAck binds the address of a DHCPACK that was produced for a REQUEST
+// replayed outside handleRequest (it waited for the AAA answer or for the
+// dataplane session). Without it the client holds an acknowledged lease while
+// the session stays unbound: no address recorded, nothing programmed, and the
+// half-open reaper releases the address while it is still in use.
+func (c *Component) recordAck(sess *SessionState, raw []byte) {
+	if sess == nil || len(raw) <= 28 {
+		return
+	}
+	sess.mu.Lock()
+	closing := sess.Closing
+	sess.mu.Unlock()
+	if closing {
+		return
+	}
+	parsed := &layers.DHCPv4{}
+	if err := parsed.DecodeFromBytes(raw[28:], gopacket.NilDecodeFeedback); err != nil {
+		return
+	}
+	if getDHCPMessageType(parsed.Options) != layers.DHCPMsgTypeAck {
+		return
+	}
+	if err := c.handleAck(sess, &dataplane.ParsedPacket{DHCPv4: parsed}); err != nil {
+		c.logger.Error("Failed to record DHCP ACK", "session_id", sess.SessionID, "error", err)
 	}
 }
 
@@ -222,6 +256,8 @@ func (c *Component) forwardLatePendingPackets(sess *SessionState, sessID string,
 			} else if response != nil && len(response.Raw) > 0 {
 				if err := c.sendDHCPResponse(sessID, svlan, cvlan, encapIfIndex, mac, response.Raw, "ACK"); err != nil {
 					c.logger.Error("Failed to send DHCP ACK", "session_id", sessID, "error", err)
+				} else {
+					c.recordAck(sess, response.Raw)
 				}
 			}
 		}
